@@ -204,6 +204,21 @@ def r9_key_roundtrip(ctx: Ctx, rid: str = "C20.R9") -> None:
                     continue
                 # the loop variable is the listed object: obj["Key"] is the key under study
                 scen0 = {"self.prefix": prefix, tgt.id: {"Key": want}}
+                # values the closure captured from the enclosing method (a prefix string / its length hoisted out of the loop):
+                # evaluated there, under the same scenario, when every definition agrees
+                if f.parent is not None:
+                    pf = f.parent
+                    pg = ctx.cfg(pf)
+                    own = {x.id for x in ast.walk(f.node) if isinstance(x, ast.Name) and isinstance(x.ctx, ast.Store)} | {p_.name for p_ in f.params}
+                    for nm in {x.id for x in ast.walk(f.node) if isinstance(x, ast.Name) and isinstance(x.ctx, ast.Load)} - own:
+                        vals = []
+                        for pn_ in pg.nodes:
+                            if pn_.kind == "stmt" and isinstance(pn_.ast, ast.Assign) and len(pn_.ast.targets) == 1 \
+                                    and isinstance(pn_.ast.targets[0], ast.Name) and pn_.ast.targets[0].id == nm:
+                                from .common import concrete_eval as _ce
+                                vals.append(_ce(ctx, pf, pn_.ast.value, {"self.prefix": prefix}, pn_.id))
+                        if vals and all(v is not UNKNOWN and v == vals[0] for v in vals):
+                            scen0[nm] = vals[0]
                 for nid, store, _asm in explore(ctx, f, [body], scen0, stop=[a.id]):
                     if nid != a.id:
                         continue
@@ -454,7 +469,11 @@ def r1(ctx: Ctx) -> None:
             continue
         for impl in (local, s3):
             im = impl.methods.get(name)
-            ok = im is not None and _sig(im) == _sig(m)
+            # an implementation may ADD trailing optional parameters (a tuning knob with a default): every call written against
+            # the abstract signature still binds the same way
+            ok = im is not None and (_sig(im) == _sig(m) or (
+                _sig(im)[:len(_sig(m))] == _sig(m) and all(d != "" or k in ("kwonly",) and d != "" for _n, k, d in _sig(im)[len(_sig(m)):])
+                and all(k != "vararg" and k != "kwarg" for _n, k, _d in _sig(im)[len(_sig(m)):])))
             ctx.ob("C20.R1", im or m, f"{impl.name}.{name} matches the abstract signature", None, ok,
                    f"abstract {_sig(m)} vs {_sig(im) if im else 'MISSING'}", nontrivial=False, text=f"{impl.name}.{name}")
     for impl in (local, s3):
@@ -856,6 +875,24 @@ def r3(ctx: Ctx) -> None:
            "scenario 'transient error, budget exhausted': "
            + "; ".join(f"max_retries={mr}: {sorted(r_[mr][0]) if len(r_) > mr else 'never reached'}" for mr, (r_, _p) in sims.items())
            + " - retry budget exhausted -> raise")
+    # the retry layer is transparent to results: what comes back is what the operation returned
+    from .common import effective_returns
+    rets_rb = [n for n in g.nodes if n.kind == "return" and n.id in g.reachable()]
+    bad_r = []
+    for r_ in rets_rb:
+        v_ = r_.ast.value if r_.ast is not None else None  # type: ignore[union-attr]
+        srcs = resolve_value(ctx, rb, v_, r_.id) if v_ is not None else []
+        if not srcs or not all(isinstance(x, ast.Call) and id(x) in {id(o.ast) for o in ops} for x, _a in srcs):
+            bad_r.append(r_)
+    ctx.ob("C20.R3", rb, "retry_with_backoff returns the operation's result", bad_r[0] if bad_r else (rets_rb[0] if rets_rb else None),
+           bool(rets_rb) and not bad_r, "every `return` hands back the value of `operation()`" if rets_rb and not bad_r else
+           "a successful attempt's result is dropped / replaced: every read through the S3 backend answers with it")
+    ws = ctx.fn("s3_consistency.with_s3_retry")
+    wr = effective_returns(ctx, ws)
+    ok_w = bool(wr) and all(isinstance(v_, ast.Call) and (dotted(v_.func) or "").split(".")[-1] == "retry_with_backoff" for _n, v_ in wr)
+    ctx.ob("C20.R3", ws, "with_s3_retry returns what the retry loop returned", wr[0][0] if wr else None, ok_w,
+           "return default_handler.retry_with_backoff(operation, ...)" if ok_w else
+           "the wrapper drops the operation's result: read_file / get_size / list_files answer None")
     others = [h for h in handler_nodes(ctx, rb) if h is not hn]
     ok = all(not (handler_exits(ctx, rb, h)["fallthrough"] or handler_exits(ctx, rb, h)["return"] or handler_exits(ctx, rb, h)["loop"]) for h in others)
     ctx.ob("C20.R3", rb, "non-retryable classes propagate", others[0] if others else None, ok, "except Exception: raise")
